@@ -617,6 +617,28 @@ func gen(c *vh.Ctx) {
 			feed(c, es, m, f.Name, "oracle", func(e *entry) bool { return kindMatch(e, f.Kind) })
 		}
 	}
+	// systematic single-node variants (delete / empty / duplicate / short length) of the small fixtures
+	swept := 0
+	for _, f := range fixtures {
+		f := f
+		small := strings.HasPrefix(f.Name, "synthetic/") || f.Kind == "OCSP" || f.Kind == "X509 CRL" || f.Kind == "CERTIFICATE REQUEST" || strings.Contains(f.Kind, "KEY")
+		switch f.Kind {
+		case "CT", "CRLSET", "SST", "TLS", "ONECRL", "RAW":
+			continue
+		}
+		if !small && !(f.Kind == "CERTIFICATE" && (c.Thorough || swept < 4)) {
+			continue
+		}
+		if len(f.Data) > 6000 {
+			continue
+		}
+		if f.Kind == "CERTIFICATE" && !small {
+			swept++
+		}
+		for _, v := range mut.Sweep(f.Data) {
+			feed(c, es, v, f.Name, "oracle", func(e *entry) bool { return kindMatch(e, f.Kind) && !strings.HasPrefix(e.name, "asn1.Unmarshal(") })
+		}
+	}
 	nr := 300
 	if c.Thorough {
 		nr = 20000
